@@ -144,9 +144,99 @@ def translate(ctx):
     tr_lin.translate(ctx.repo, ctx.lean)
 
 
+_TOOLS = {}          # harness and driver of the current run (the end-to-end signature consults the acord2 op)
+
+
 def build_harness(ctx):
     srcs = [ctx.verif / "harness" / "c06_cogo.cpp"] + [ctx.repo / "lib" / "gnu_gama" / (s + ".cpp") for s in SRC]
-    return ctx.build_cpp("c06_cogo", srcs, includes=[ctx.verif / "harness"], libs=["-lexpat"])
+    exe = ctx.build_cpp("c06_cogo", srcs, includes=[ctx.verif / "harness"], libs=["-lexpat"])
+    _TOOLS["exe"], _TOOLS["drv"] = exe, ctx.driver("drv_cogo")
+    return exe
+
+
+CS_CODE = {"en": 0, "nw": 1, "se": 2, "ws": 3, "ne": 4, "sw": 5, "es": 6, "wn": 7}      # LocalCoordinateSystem::CS
+
+
+def gkf_to_acord2(gkf):
+    """a GENERATED .gkf (tools/lib/gen_net.py::to_gkf) as an `acord2` op line; None if it holds anything the op has no
+    record for (coordinate clusters, covariance matrices are ignored: Acord2 does not read them)"""
+    G2R = math.pi / 200.0
+    at = lambda t: dict(re.findall(r'([\w-]+)="([^"]*)"', t))
+    m = re.search(r"<network([^>]*)>", gkf)
+    if not m or "<coordinates" in gkf:
+        return None
+    na = at(m.group(1))
+    cs = CS_CODE.get(na.get("axes-xy", "ne"))
+    if cs is None:
+        return None
+    rh = 1 if na.get("angles", "left-handed") == "right-handed" else 0
+    recs = []
+    for m in re.finditer(r"<point ([^>]*)/>", gkf):
+        a = at(m.group(1))
+        free = a.get("adj", "")
+        recs.append(f"P {a['id']} {int('x' in a)} {H(float(a.get('x', 0)))} {H(float(a.get('y', 0)))} {int('z' in a)} "
+                    f"{H(float(a.get('z', 0)))} {int('xy' in free.lower())} {int('z' in free.lower())}")
+    for m in re.finditer(r"<obs ([^>]*)>(.*?)</obs>", gkf, re.S):
+        f = at(m.group(1)).get("from")
+        if f is None:
+            return None
+        o = []
+        for k, attrs in re.findall(r"<([\w-]+) ([^>]*)/>", m.group(2)):
+            a = at(attrs)
+            v = float(a["val"])
+            dh = f"{H(float(a.get('from_dh', 0)))} {H(float(a.get('to_dh', 0)))}"
+            if k == "direction":
+                o.append(f"dir {f} {a['to']} {H(v * G2R)}")
+            elif k == "distance":
+                o.append(f"d {a.get('from', f)} {a['to']} {H(v)}")
+            elif k == "s-distance":
+                o.append(f"sd {a.get('from', f)} {a['to']} {H(v)} {dh}")
+            elif k == "z-angle":
+                o.append(f"za {a.get('from', f)} {a['to']} {H(v * G2R)} {dh}")
+            elif k == "azimuth":
+                o.append(f"az {a.get('from', f)} {a['to']} {H(v * G2R)}")
+            elif k == "angle":
+                o.append(f"ang {a.get('from', f)} {a['bs']} {a['fs']} {H(v * G2R)}")
+            else:
+                return None
+        recs.append(f"S {f} " + " ".join(o))
+    for m in re.finditer(r"<height-differences[^>]*>(.*?)</height-differences>", gkf, re.S):
+        o = [f"hd {a['from']} {a['to']} {H(float(a['val']))}" for a in map(at, re.findall(r"<dh ([^>]*)/>", m.group(1)))]
+        recs.append("H " + " ".join(o))
+    for m in re.finditer(r"<vectors[^>]*>(.*?)</vectors>", gkf, re.S):
+        o = []
+        for a in map(at, re.findall(r"<vec ([^>]*)/>", m.group(1))):
+            o += [f"dx {a['from']} {a['to']} {H(float(a['dx']))}", f"dy {a['from']} {a['to']} {H(float(a['dy']))}",
+                  f"dz {a['from']} {a['to']} {H(float(a['dz']))}"]
+        recs.append("V " + " ".join(o))
+    return f"acord2 {cs} {rh} " + " ".join(recs)
+
+
+def insertion_mechanism(gkf, truth):
+    """the narrow mechanism of finding C06-F21 on a whole network: run on the same observations, the five modelled
+    strategies (everything of AcordIntersection but solve_insertion) publish TRUE coordinates only, while the real
+    Acord2::execute publishes a wrong xy that came out of AcordIntersection::execute and that the model does not publish"""
+    if not _TOOLS or not truth:
+        return False
+    try:
+        line = gkf_to_acord2(gkf)
+        if line is None:
+            return False
+        (ri, cr), (rm, _) = run_cases(_TOOLS["exe"], [[line]]), run_cases(_TOOLS["drv"], [[line]])
+        if cr or not rm[0] or rm[0][0].startswith(("bad-op", "fuel")):
+            return False
+        body = [l for l in ri[0] if not l.startswith(("acted ", "oriset ", "by "))]
+        by = {l.split()[1]: l.split()[2] for l in ri[0] if l.startswith("by ")}
+        pts = truth["points"]
+        meta = {"truth": {k: (q.get("x", 0.0), q.get("y", 0.0), q.get("z", 0.0)) for k, q in pts.items()}}
+        if any(k not in meta["truth"] for k in a2_points(body)):
+            return False
+        tol = 1e-6 * (1 + max(abs(c) for t in meta["truth"].values() for c in t))
+        wrong = a2_wrong(meta, body, tol)
+        return bool(not a2_wrong(meta, rm[0], tol) and a2_insertion_acted(body, rm[0], by) and
+                    any(w == "xy" and by.get(k) == "AcordIntersection" for k, w in wrong))
+    except (KeyError, ValueError, IndexError):
+        return False
 
 
 # ------------------------------------------------------------------ (a) primitives
@@ -369,7 +459,7 @@ def coord_stdev(txt):
     return res
 
 
-def signature(gkf, bad, txt, variant):
+def signature(gkf, bad, txt, variant, truth=None):
     """mechanism signature of a failing run (used for grouping, shrinking and classify)"""
     rows = N.outlying_terms(txt)
     groups = {}
@@ -393,6 +483,9 @@ def signature(gkf, bad, txt, variant):
         # approximate heights from AcordZderived without instrument/target heights accumulate along a chain
         # until a zenith angle / slope distance exceeds tol-abs and is removed (part of finding F18)
         return "C06-zderived-dh"
+    if variant.startswith("omitted") and insertion_mechanism(gkf, truth):
+        # C06-F21 end to end: solve_insertion gets its turn before the documented strategies reach the point
+        return "C06-insertion"
     if variant.startswith("omitted") and ("<height-differences>" in gkf or "<vectors>" in gkf) and rows:
         # approximate values were produced (no refusal) and are so wrong that observations are thrown out
         return "C06-acord-copyback"
@@ -521,7 +614,7 @@ def e2e(ctx, corr, gd, ncases, wd):
                 corr.count(f"e2e_{fam}_{vn.rstrip('0123456789.e-')}")
                 if not bad:
                     continue
-                sig = signature(text, bad, txt, vn)
+                sig = signature(text, bad, txt, vn, truth)
                 step = ""
                 if sig == "C06-acord-incomplete":
                     pid, step, what = failing_step(ctx, wd, text, truth)
@@ -539,7 +632,7 @@ def e2e(ctx, corr, gd, ncases, wd):
                     t2 = G.to_gkf(sv, **gk)
                     rc2, xml2, txt2, log2 = N.run_gama(gd, t2, alg, wd, "s")
                     b2 = check(st, rc2, xml2, txt2, log2, vn, heights)
-                    if not (bool(b2) and signature(t2, b2, txt2, vn) == sig):
+                    if not (bool(b2) and signature(t2, b2, txt2, vn, st) == sig):
                         return False
                     if vn != "supplied":      # keep the network determined: with the true coordinates supplied it must pass
                         rc3, xml3, txt3, log3 = N.run_gama(gd, G.to_gkf(N.variant_supplied(st), **gk), alg, wd, "s3")
@@ -567,6 +660,7 @@ def e2e(ctx, corr, gd, ncases, wd):
                                 "C06-zderived-dh": "AcordZderived::execute",
                                 "C06-acord-incomplete": "Acord2::execute (" + step + ")",
                                 "C06-azimuth-from-unknown": "AcordIntersection::execute / ApproximateCoordinates (azimuth observed from the unknown point)",
+                                "C06-insertion": "AcordIntersection::execute / ApproximateCoordinates::solve_insertion",
                                 }.get(sig.split("|")[0], "gama-local"),
                           detail=txt2[:1500])
 
@@ -708,10 +802,38 @@ def inserted_before_model(drv, line, impl, model):
         if ta[0] != "pt" or lines_equal(a, b, rtol=1e-9, atol=1e-7):
             continue
         pid = ta[1]
+        if ta[2] != "1" and tb[2] == "1" and ta[7] == "0" and tb[7] == "0" and ta[5:7] == tb[5:7]:
+            continue      # model only, never missing: a by-product of a turn the implementation did not get to any more
         if ta[2] != "1" or pid not in pf or pf[pid][2] == "1":
             return False
         seen = True
     return seen
+
+
+def inter_ori_only(impl, model):
+    """every point agrees (to tolerance, but not bit for bit: another computation path - solve_insertion - produced at
+    least one of them), and the only difference is an orientation Orientation::add_all set in a later walk of the model
+    that the implementation did not need any more"""
+    if len(impl) != len(model):
+        return False
+    bits, ori = False, False
+    for a, b in zip(impl, model):
+        ta, tb = a.split(), b.split()
+        if ta[:1] != tb[:1]:
+            return False
+        if ta[0] == "pt":
+            if not lines_equal(a, b, rtol=1e-9, atol=1e-7):
+                return False
+            bits = bits or a != b
+        elif ta[0] == "ori":
+            if ta[2] == "1" and tb[2] == "1":
+                if not lines_equal(a, b, rtol=1e-9, atol=1e-9):
+                    return False
+            elif ta[2] != tb[2]:
+                ori = True
+        elif a != b:
+            return False
+    return bits and ori
 
 
 def f21_registered(ctx):
@@ -769,8 +891,12 @@ def acord_stream(ctx, corr, exe, drv, n):
             if not ok and not why and inserted_before_model(drv, c[0], impl[i], model[i]):
                 corr.count("acord_intersection_insertion_before")
                 ok = True
+            if not ok and not why and inter_ori_only(impl[i], model[i]):
+                corr.count("acord_intersection_insertion_ori")
+                ok = True
             if why and m.get("truth") and A.check(m, model[i]) is None and \
-                    (inter_superset(impl[i], model[i]) or inter_insertion_stops(impl[i], model[i])):
+                    (inter_superset(impl[i], model[i]) or inter_insertion_stops(impl[i], model[i]) or
+                     inserted_before_model(drv, c[0], impl[i], model[i])):
                 # exact data, the model (everything but solve_insertion) publishes true points only and the
                 # implementation a wrong one: finding C06-F21 (solve_insertion works in a local frame with orientations
                 # and distances of the global one).  Reported as a failure once the finding is registered; until then
@@ -797,7 +923,7 @@ def acord_stream(ctx, corr, exe, drv, n):
     if thin and n >= 1000:
         corr.inconclusive.append("acord stream: too few cases for branch(es) " + ", ".join(thin))
     ni = corr.stats.get("acord_intersection", 0)
-    nins = sum(corr.stats.get("acord_intersection_insertion_" + k, 0) for k in ("further", "wrong", "first", "stops", "before"))
+    nins = sum(corr.stats.get("acord_intersection_insertion_" + k, 0) for k in ("further", "wrong", "first", "stops", "before", "ori"))
     if ni >= 100 and nins > 0.1 * ni:
         corr.inconclusive.append(f"acord stream: solve_insertion (not modelled) decided {nins} of {ni} intersection cases")
 
@@ -841,6 +967,20 @@ def a2_lost(impl, model):
     pi, pm = a2_points(impl), a2_points(model)
     return [f"{k}.{w}" for k, tb in pm.items() if k in pi
             for w, j in (("xy", 2), ("z", 5)) if tb[j] == "1" and pi[k][j] != "1"]
+
+
+def a2_insertion_faster(impl, model):
+    """every point agrees; the implementation needed no more turns and at the start of every turn it had no more points
+    missing than the model (strictly fewer at least once): solve_insertion reached a point a turn earlier than the documented strategies, with the same
+    value (to tolerance)"""
+    pi, pm = a2_points(impl), a2_points(model)
+    if list(pi) != list(pm) or not all(lines_equal(" ".join(pi[k]), " ".join(pm[k]), rtol=1e-9, atol=1e-7) for k in pi):
+        return False
+    ri = [l.split() for l in impl if l.startswith("r ")]
+    rm = [l.split() for l in model if l.startswith("r ")]
+    if not (0 < len(ri) <= len(rm)) or ri == rm:
+        return False
+    return all(int(a[2]) <= int(b[2]) and int(a[3]) <= int(b[3]) for a, b in zip(ri, rm))
 
 
 def a2_insertion_acted(impl, model, by):
@@ -908,6 +1048,10 @@ def acord2_stream(ctx, corr, exe, drv, n):
             if any(l.startswith("oriset ") and l != "oriset 0" for l in impl[i]):
                 corr.count("acord2_polar_oriented_a_standpoint")
             ok = len(body) == len(model[i]) and all(lines_equal(a, b, rtol=1e-9, atol=1e-7) for a, b in zip(body, model[i]))
+            if not ok and a2_insertion_faster(body, model[i]) and "AcordIntersection" in by.values():
+                corr.count("acord2_outside_model_solve_insertion")
+                corr.count("acord2_outside_model")
+                ok = True
             if not ok and a2_insertion_acted(body, model[i], by):
                 # from the point solve_insertion publishes on, the two runs need not agree any more
                 corr.count("acord2_outside_model_solve_insertion")
@@ -1068,7 +1212,7 @@ def correspond(ctx, corr):
                 corr.fail(f"corpus {f.name}: " + "; ".join(bad[:4]),
                           {"stream": "e2e", "gkf": f.read_text(), "alg": m.get("alg", "envelope"), "variant": m.get("variant"),
                            "heights": m.get("heights", False), "truth_net": m["truth_net"], "step": m.get("step", ""),
-                           "signature": signature(f.read_text(), bad, txt, m.get("variant", "supplied"))},
+                           "signature": signature(f.read_text(), bad, txt, m.get("variant", "supplied"), m["truth_net"])},
                           site=m.get("site", "gama-local"), detail=txt[:1500])
         e2e(ctx, corr, gd, ctx.size(45, 400), wd)
     finally:
@@ -1085,8 +1229,8 @@ def search(ctx, broken, corr):
     wd = Path(tempfile.mkdtemp(prefix="c06s-"))
     try:
         gd = ctx.build_gama(sanitize=False, targets=("gama-local",))
-        e2e(ctx, c2, gd, 400, wd)
         exe = build_harness(ctx)
+        e2e(ctx, c2, gd, 400, wd)
         cases, meta = [], []
         for _ in range(30000):
             line, X, kind = gen_primitive(ctx.rng)
@@ -1113,7 +1257,7 @@ def classify(ctx, failure):
     if r.get("stream") in ("acord", "acord2"):
         return r.get("finding")
     return {"C06-stale-x": "C06-refine-stale-unknowns", "C06-acord-copyback": "C06-acord-copyback",
-            "C06-azimuth-from-unknown": "C06-F20"}.get(sig)
+            "C06-azimuth-from-unknown": "C06-F20", "C06-insertion": "C06-F21"}.get(sig)
 
 
 def explained_by_known(ctx, broken_item, matched_ids):
